@@ -10,7 +10,7 @@
                     [multi-driver] a reg written by more than one `always` block; a net driven as a
                                    whole by more than one continuous assignment
                     [clock]        (with `lintClock`) a clocked block not sensitive to the clock
-  No theorems here (C18 builds on it).  Core-only.
+  Written as plain list functions so that `BMV.Props.C18` can reason about it.  Core-only.
 -/
 import BMV.Vlog.Elab
 namespace BMV.Vlog
@@ -48,34 +48,52 @@ end
 
 def Design.sigName (d : Design) (i : Nat) : String := (d.sigs[i]?.map (·.name)).getD s!"#{i}"
 
+def Design.kindOf (d : Design) (i : Nat) : SigKind := (d.sigs[i]?.map (·.kind)).getD .wire
+def Design.isIntSig (d : Design) (i : Nat) : Bool := (d.sigs[i]?.map (·.isInt)).getD false
+
+/-- bodies of all `always` blocks (combinational first, then clocked), in this order they are
+    numbered 0, 1, … by the lint -/
+def Design.alwaysBodies (d : Design) : List Stmt := d.combs.toList ++ d.procs.toList.map (·.body)
+
+/-- findings of one continuous assignment target; `seen` = nets already driven as a whole -/
+def Design.contTarget (d : Design) (seen : List Nat) (t : Nat × Bool) : List String :=
+  (if d.kindOf t.1 == .reg then [s!"[assign-kind] reg {d.sigName t.1} is assigned continuously"] else []) ++
+  (if d.kindOf t.1 == .input then [s!"[assign-kind] input {d.sigName t.1} is driven inside the design"] else []) ++
+  (if t.2 && seen.contains t.1 then [s!"[multi-driver] net {d.sigName t.1} has several continuous drivers"] else [])
+
+/-- continuous assignments must drive nets, each net as a whole at most once -/
+def Design.contFindings (d : Design) : List (Nat × Bool) → List Nat → List String
+  | [], _ => []
+  | t :: ts, seen => d.contTarget seen t ++ d.contFindings ts (if t.2 then t.1 :: seen else seen)
+
+/-- the signals assigned by `always` block number `b` -/
+def Design.blockTargets (d : Design) (b : Nat) : List Nat :=
+  match d.alwaysBodies[b]? with
+  | some body => stmtTargets body
+  | none => []
+
+/-- is signal `i` assigned by an `always` block with a number below `b`? -/
+def Design.writtenBefore (d : Design) (b i : Nat) : Bool :=
+  (List.range b).any fun b' => (d.blockTargets b').contains i
+
+/-- findings of target `i` of procedural block number `b` (`isAlways`: an always block, not `initial`) -/
+def Design.procTarget (d : Design) (b : Nat) (isAlways : Bool) (i : Nat) : List String :=
+  (if d.kindOf i != .reg then [s!"[assign-kind] net {d.sigName i} is assigned in a procedural block"] else []) ++
+  (if isAlways && !d.isIntSig i && d.writtenBefore b i then
+    [s!"[multi-driver] reg {d.sigName i} is assigned in more than one always block"] else [])
+
+/-- procedural blocks must assign variables; one always block per variable (loop `integer`s exempt) -/
+def Design.procFindings (d : Design) : List String :=
+  let blocks := d.alwaysBodies
+  let all := blocks ++ d.inits.toList
+  (List.range all.length).flatMap fun b =>
+    match all[b]? with
+    | some body => (stmtTargets body).eraseDups.flatMap (d.procTarget b (b < blocks.length))
+    | none => []
+
 /-- all findings, each prefixed by its class -/
-def Design.lint (d : Design) : List String := Id.run do
-  let mut out : Array String := #[]
-  let kindOf (i : Nat) : SigKind := (d.sigs[i]?.map (·.kind)).getD .wire
-  let isInt (i : Nat) : Bool := (d.sigs[i]?.map (·.isInt)).getD false
-  -- continuous assignments must drive nets
-  let mut wholeDrivers : Array Nat := #[]
-  for (l, _) in d.assigns do
-    for (i, whole) in lhsTargets l do
-      if kindOf i == .reg then out := out.push s!"[assign-kind] reg {d.sigName i} is assigned continuously"
-      if kindOf i == .input then out := out.push s!"[assign-kind] input {d.sigName i} is driven inside the design"
-      if whole then
-        if wholeDrivers.contains i then out := out.push s!"[multi-driver] net {d.sigName i} has several continuous drivers"
-        wholeDrivers := wholeDrivers.push i
-  -- procedural blocks must assign variables; one always block per variable
-  let blocks : List Stmt := d.combs.toList ++ d.procs.toList.map (·.body)
-  let mut owner : Array (Nat × Nat) := #[]     -- (signal, block number)
-  let mut b := 0
-  for body in blocks ++ d.inits.toList do
-    let ts := (stmtTargets body).eraseDups
-    for i in ts do
-      if kindOf i != .reg then out := out.push s!"[assign-kind] net {d.sigName i} is assigned in a procedural block"
-      if b < blocks.length && !isInt i then
-        if owner.any (fun (j, ob) => j == i && ob != b) then
-          out := out.push s!"[multi-driver] reg {d.sigName i} is assigned in more than one always block"
-        owner := owner.push (i, b)
-    b := b + 1
-  pure out.toList.eraseDups
+def Design.lint (d : Design) : List String :=
+  (d.contFindings (d.assigns.toList.flatMap fun a => lhsTargets a.1) [] ++ d.procFindings).eraseDups
 
 /-- `Design.WF` : no lint finding -/
 def Design.WF (d : Design) : Bool := d.lint.isEmpty
